@@ -18,11 +18,20 @@ pub fn load(vals: Vec<Vec<u8>>) {
 }
 
 fn pop(n: usize) -> Vec<u8> {
-    QUEUE.with(|q| match q.borrow_mut().pop_front() {
-        Some(v) if v.len() == n => v,
-        Some(v) => panic!("{DIVERGED}: wanted {n} bytes, trace has {}", v.len()),
-        // Values the solver did not have to fix (sliced away) replay as zero.
-        None => vec![0; n],
+    QUEUE.with(|q| {
+        let mut q = q.borrow_mut();
+        match q.pop_front() {
+            Some(v) if v.len() == n => v,
+            // a trace taken from CBMC directly reports a whole array as one value: split it
+            Some(mut v) if v.len() > n => {
+                let rest = v.split_off(n);
+                q.push_front(rest);
+                v
+            }
+            Some(v) => panic!("{DIVERGED}: wanted {n} bytes, trace has {}", v.len()),
+            // Values the solver did not have to fix (sliced away) replay as zero.
+            None => vec![0; n],
+        }
     })
 }
 
